@@ -865,9 +865,14 @@ class InterfaceClass(_InterfaceClassBase):
         if not all:
             return self.__attrs.items()
 
+        # Follow the resolution order, like ``get`` and ``__getitem__``
+        # do, so that the description listed for a name is the one
+        # ``self[name]`` returns. (Recursing over ``__bases__`` picks the
+        # wrong definition in a diamond where only the later branch
+        # overrides a name.)
         r = {}
-        for base in self.__bases__[::-1]:
-            r.update(dict(base.namesAndDescriptions(all)))
+        for iface in self.__iro__[::-1]:
+            r.update(iface.namesAndDescriptions())
 
         r.update(self.__attrs)
 
